@@ -65,9 +65,14 @@ struct Out {
 }
 
 /// all queries on one text; at most one crash per (query, site) is kept
+/// `text` = main file, optionally followed by `\x1e` and the text of `lib1.abra` (queries go to the main file)
 fn analyze(text: &str, model: bool, tag: &str) -> Out {
     let mut out = Out::default();
-    let a = match catch_unwind(AssertUnwindSafe(|| check_lsp("main.abra", provider(text, &[])))) {
+    let (text, extra): (&str, Vec<(String, String)>) = match text.split_once('\x1e') {
+        Some((m, l)) => (m, vec![("lib1.abra".to_string(), l.to_string())]),
+        None => (text, vec![]),
+    };
+    let a = match catch_unwind(AssertUnwindSafe(|| check_lsp("main.abra", provider(text, &extra)))) {
         Ok(a) => a,
         Err(p) => {
             out.crashes.push(Crash { query: "check_lsp", offset: 0, site: site(), msg: panic_msg(p) });
@@ -237,7 +242,7 @@ fn main() {
         jobs.push(Job { label: "garbage".into(), text: t, model: k % 10 == 0 });
     }
     // self-referential definitions through every type constructor; generic names with every type-argument count
-    for (k, (label, text)) in infinite_type_texts().into_iter().chain(arity_texts()).chain(illformed_decl_texts()).chain(diverging_texts()).chain(literal_edge_texts()).enumerate() {
+    for (k, (label, text)) in infinite_type_texts().into_iter().chain(arity_texts()).chain(illformed_decl_texts()).chain(diverging_texts()).chain(literal_edge_texts()).chain(default_binding_texts()).chain(namespace_texts()).chain(assignment_texts()).enumerate() {
         jobs.push(Job { label, text, model: k % 25 == 0 });
     }
     let nw = n_threads();
@@ -262,7 +267,7 @@ fn main() {
     let mut seen: BTreeMap<(String, String), u64> = BTreeMap::new();
     let mut queries = 0u64;
     for (j, r) in jobs.iter().zip(results) {
-        let kind = j.label.split(':').take(if j.label.starts_with("mut") || j.label.starts_with("inftype") || j.label.starts_with("arity") || j.label.starts_with("illdecl") || j.label.starts_with("diverge") || j.label.starts_with("litedge") { 2 } else { 1 }).collect::<Vec<_>>().join(":");
+        let kind = j.label.split(':').take(if j.label.starts_with("mut") || j.label.starts_with("inftype") || j.label.starts_with("arity") || j.label.starts_with("illdecl") || j.label.starts_with("diverge") || j.label.starts_with("litedge") || j.label.starts_with("defbind") || j.label.starts_with("nsuse") || j.label.starts_with("assign") { 2 } else { 1 }).collect::<Vec<_>>().join(":");
         ctx.count(&format!("text:{kind}"));
         if !j.text.is_ascii() {
             ctx.count("text:non-ascii");
